@@ -141,7 +141,8 @@ def r08_2(ctx, rr):
     lb = F.one(r"^dict::vfilter::VFilter::<W, func::vfunc::VFunc<T, W, D, S, E>>::len$")
     t = Termizer(F, lb).term(lb.body)
     rr.instances += 1
-    rr.check(t[0] == "call" and t[1] == "VFunc::len", "VFilter::len", "VFilter::len must be the number of keys of the underlying function", lb.span)
+    slf_l = ("var", "self", lb.params[0]["id"])
+    rr.check((t[0] == "call" and t[1] == "VFunc::len") or t == ("field", ("field", slf_l, "func"), "num_keys"), "VFilter::len", "VFilter::len must be the number of keys of the underlying function", lb.span)
 
 
 def result_term(F, b):
